@@ -73,9 +73,9 @@ func resultShape(input string, schema bool, limit int) string {
 func runC01(c *core.Ctx) {
 	const thm = "C01_* (props/C01.v); model ops lex/pq/ps"
 	c.ReplayKnown()
-	maxLen, nDocs, nRand := 3, 300, 20000
+	maxLen, nDocs, nRand := 4, 600, 60000
 	if !c.Quick {
-		maxLen, nDocs, nRand = 4, 3000, 300000
+		maxLen, nDocs, nRand = 5, 6000, 600000
 	}
 	check := func(w int, input []byte, limit int) {
 		lim := []byte(strconv.Itoa(limit))
